@@ -243,7 +243,7 @@ func (o *FilterOptimizer) optimizeGtGteExpr(e *BinaryOpExpr) *ScanType {
 	if field == KeyKW && key != nil {
 		if _, literalOnLeft := e.Left.(*StringExpr); literalOnLeft {
 			// 'x' > key means key < 'x': the literal is the end of the range
-			return rangeScanWithEnd(key)
+			return rangeScanWithEnd(key, e.Op == Gte)
 		}
 		return rangeScanWithStart(key)
 	}
@@ -279,7 +279,7 @@ func (o *FilterOptimizer) optimizeLtLteExpr(e *BinaryOpExpr) *ScanType {
 			// 'x' < key means key > 'x': the literal is the start of the range
 			return rangeScanWithStart(key)
 		}
-		return rangeScanWithEnd(key)
+		return rangeScanWithEnd(key, e.Op == Lte)
 	}
 
 	// If not just return FULL scan
@@ -294,9 +294,13 @@ func rangeScanWithStart(key []byte) *ScanType {
 	return &ScanType{RANGE, [][]byte{key, nil}}
 }
 
-func rangeScanWithEnd(key []byte) *ScanType {
+func rangeScanWithEnd(key []byte, inclusive bool) *ScanType {
 	if string(key) == "" {
-		// key < '' or key <= '' means no keys should be scan
+		if inclusive {
+			// key <= '' can only be the empty key
+			return &ScanType{MGET, [][]byte{key}}
+		}
+		// key < '' means no keys should be scan
 		return &ScanType{EMPTY, nil}
 	}
 	return &ScanType{RANGE, [][]byte{nil, key}}
